@@ -676,8 +676,8 @@ class PassWorld(World):
                     return ("T", ())
                 if m in ("first", "last") and not args:
                     return S("Some", recv.items[0 if m == "first" else -1]) if recv.items else NONE
-                if m == "get" and len(args) == 1 and isinstance(args[0], int):
-                    return S("Some", recv.items[args[0]]) if args[0] < len(recv.items) else NONE
+                if m in ("get", "get_mut") and len(args) == 1 and isinstance(args[0], int):
+                    return S("Some", recv.items[args[0]]) if 0 <= args[0] < len(recv.items) else NONE
                 if m == "reverse" and not args:
                     recv.items.reverse()
                     return ("T", ())
@@ -796,7 +796,7 @@ class PassWorld(World):
                 raise Unsupported("string method " + m)
             if isinstance(recv, Sink) and m in ("into_iter", "iter_mut"):
                 return Iter(list(recv.items))
-            if (isinstance(recv, Iter) or (isinstance(recv, tuple) and recv and recv[0] == "L")) and m in ("filter_map", "flat_map", "chain", "for_each", "count", "enumerate", "rev", "flatten", "find", "position", "try_for_each", "skip", "take", "zip", "sum", "inspect", "find_map", "max", "min", "unzip"):
+            if (isinstance(recv, Iter) or (isinstance(recv, tuple) and recv and recv[0] == "L")) and m in ("filter_map", "flat_map", "chain", "for_each", "count", "enumerate", "rev", "flatten", "find", "position", "try_for_each", "skip", "take", "zip", "sum", "inspect", "find_map", "max", "min", "unzip", "take_while", "skip_while", "map_while", "fold", "last", "nth"):
                 it = recv if isinstance(recv, Iter) else Iter(recv[1])
                 args = [self.eval(a, env, uses) for a in e["args"]]
                 if m == "unzip" and not args:
@@ -874,6 +874,40 @@ class PassWorld(World):
                 if m in ("skip", "take") and len(args) == 1 and isinstance(args[0], int):
                     r = it.rest()
                     return Iter(r[args[0]:] if m == "skip" else r[:args[0]])
+                if m in ("take_while", "skip_while") and len(args) == 1:
+                    r = it.rest()
+                    k_ = 0
+                    while k_ < len(r):
+                        t_ = self.apply(args[0], [r[k_]], uses)
+                        if not isinstance(t_, bool):
+                            raise Unsupported("%s with a predicate that returns %r" % (m, t_))
+                        if not t_:
+                            break
+                        k_ += 1
+                    return Iter(r[:k_] if m == "take_while" else r[k_:])
+                if m == "map_while" and len(args) == 1:
+                    out = []
+                    for x in it.rest():
+                        r_ = self.apply(args[0], [x], uses)
+                        if some(r_):
+                            out.append(r_[2][0])
+                        elif r_ == NONE:
+                            break
+                        else:
+                            raise Unsupported("map_while closure returned %r" % (r_,))
+                    return Iter(out)
+                if m == "fold" and len(args) == 2:
+                    acc_ = args[0]
+                    for x in it.rest():
+                        acc_ = self.apply(args[1], [acc_, x], uses)
+                    return acc_
+                if m == "last" and not args:
+                    r = it.rest()
+                    return S("Some", r[-1]) if r else NONE
+                if m == "nth" and len(args) == 1 and isinstance(args[0], int):
+                    r = it.items[it.pos:]
+                    it.pos = min(len(it.items), it.pos + args[0] + 1)
+                    return S("Some", r[args[0]]) if args[0] < len(r) else NONE
                 if m == "find" and len(args) == 1:
                     while it.pos < len(it.items):
                         x = it.items[it.pos]
